@@ -1,9 +1,25 @@
 (* C14 proofs, part 3: VerifyAuthRulesAtState and LoadAndVerify, for arbitrary (stateful)
    providers. *)
-From Coq Require Import List NArith Bool Lia PeanoNat.
+From Coq Require Import List NArith ZArith Bool Lia PeanoNat.
 From Verif Require Import Fed.Filters Fed.AuthChain Fed.Load Fed.Spec.
 Import ListNotations.
 Open Scope N_scope.
+
+Lemma mem_N_false_c14 x l : mem_N x l = false -> ~ In x l.
+Proof.
+  induction l as [|y l IH]; simpl; [tauto|].
+  intros H. apply orb_false_iff in H. destruct H as [H1 H2]. apply N.eqb_neq in H1.
+  intros [->|Hin]; [congruence|]. now apply IH.
+Qed.
+
+Lemma NoDup_app_single_c14 {A} (l : list A) a : NoDup l -> ~ In a l -> NoDup (l ++ [a]).
+Proof.
+  induction l as [|b l IH]; simpl; intros Hnd Hin.
+  - constructor; [tauto|constructor].
+  - inversion Hnd as [|? ? Hb Hnd']; subst. constructor.
+    + intros H. apply in_app_or in H. destruct H as [H|[->|[]]]; tauto.
+    + apply IH; tauto.
+Qed.
 
 Section RasProofs.
   Variable PS : Type.
@@ -167,3 +183,86 @@ Section LoadProofs.
     - exists rs1. split; auto.
   Qed.
 End LoadProofs.
+
+(* ---------- RequestBackfill ---------- *)
+Section BackfillProofs.
+  Variable PS : Type.
+  Variable sig_ok : event -> bool.
+  Variable allowed : event -> list event -> bool.
+  Variable pcall : PS -> list N -> PS * panswer.
+  Variable sp_ids : PS -> event -> PS * option (list N).
+  Variable sp_state : PS -> event -> list N -> PS * option emap.
+  Variable topo : list event -> list event.
+  Variable servers_at : PS -> N -> PS * list N.
+  Variable backfill : PS -> N -> PS * option (list parsed).
+
+  Definition taken (rs : list (option event * lclass)) (e : event) : Prop :=
+    In (Some e, LOk) rs \/ In (Some e, LSig) rs.
+
+  (* have covers the IDs of result; result has unique IDs *)
+  Definition bf_inv (have : list N) (result : list event) : Prop :=
+    (forall e, In e result -> In (eid e) have) /\ NoDup (map eid result).
+
+  Lemma take_results_spec : forall rs have result have' result',
+    take_results rs have result = (have', result') -> bf_inv have result ->
+    bf_inv have' result' /\
+    exists added, result' = result ++ added /\ forall e, In e added -> taken rs e.
+  Proof.
+    induction rs as [|[oe c] rs IH]; intros have result have' result'; simpl.
+    - intros [= <- <-] Hinv. split; auto. exists []. rewrite app_nil_r. split; auto. intros e [].
+    - assert (Hskip : take_results rs have result = (have', result') -> bf_inv have result ->
+               bf_inv have' result' /\
+               exists added, result' = result ++ added /\ forall e, In e added -> taken ((oe, c) :: rs) e).
+      { intros H Hinv. destruct (IH _ _ _ _ H Hinv) as (Hi & added & -> & Ha). split; auto.
+        exists added. split; auto. intros e He. destruct (Ha e He); [left|right]; now right. }
+      assert (Htake : forall e, oe = Some e -> (c = LOk \/ c = LSig) ->
+                (if mem_N (eid e) have then take_results rs have result
+                 else take_results rs (eid e :: have) (result ++ [e])) = (have', result') ->
+                bf_inv have result ->
+                bf_inv have' result' /\
+                exists added, result' = result ++ added /\ forall e', In e' added -> taken ((oe, c) :: rs) e').
+      { intros e -> Hc H Hinv. destruct (mem_N (eid e) have) eqn:Hm; [now apply Hskip|].
+        assert (Hinv' : bf_inv (eid e :: have) (result ++ [e])).
+        { destruct Hinv as [H1 H2]. split.
+          - intros e' He'. apply in_app_or in He'. destruct He' as [He'|[<-|[]]]; [right; auto|now left].
+          - rewrite map_app. simpl. apply NoDup_app_single_c14; auto.
+            intros Hin. apply in_map_iff in Hin. destruct Hin as (e' & Heq & He').
+            apply H1 in He'. rewrite Heq in He'. apply mem_N_false_c14 in Hm. contradiction. }
+        destruct (IH _ _ _ _ H Hinv') as (Hi & added & -> & Ha). split; auto.
+        exists (e :: added). rewrite <- app_assoc. split; auto.
+        intros e' [<-|He'].
+        - destruct Hc as [-> | ->]; [left|right]; now left.
+        - destruct (Ha e' He'); [left|right]; now right. }
+      destruct oe as [e|]; [|apply Hskip].
+      destruct c; try apply Hskip; apply (Htake e); auto.
+  Qed.
+
+  Lemma bf_loop_unique fuel gfuel vk limit : forall servers have result lastErr ps evs le ps',
+    bf_loop PS sig_ok allowed pcall sp_ids sp_state topo backfill fuel gfuel vk limit servers
+            have result lastErr ps = (BfResult evs le, ps') ->
+    bf_inv have result -> NoDup (map eid evs).
+  Proof.
+    induction servers as [|s rest IH]; intros have result lastErr ps evs le ps'; simpl.
+    - intros [= <- <- <-] [_ H]. exact H.
+    - destruct (Z.leb limit (Z.of_nat (length result))).
+      + intros [= <- <- <-] [_ H]. exact H.
+      + destruct (backfill ps s) as [ps1 [pdus|]]; [|apply IH].
+        destruct (load_and_verify _ _ _ _ _ _ _ _ _ _ pdus ps1) as [[rs| |] ps2]; try discriminate.
+        * destruct (take_results rs have result) as [have' result'] eqn:Ht.
+          intros H Hinv. destruct (take_results_spec _ _ _ _ _ Ht Hinv) as [Hinv' _]. eapply IH; eauto.
+        * apply IH.
+  Qed.
+
+  (* the events RequestBackfill returns carry pairwise different IDs; without starting points
+     nothing is asked and nothing is returned *)
+  Theorem backfill_unique_ids fuel gfuel vk from_ids limit ps evs le ps' :
+    request_backfill PS sig_ok allowed pcall sp_ids sp_state topo servers_at backfill
+                     fuel gfuel vk from_ids limit ps = (BfResult evs le, ps') ->
+    NoDup (map eid evs) /\ (from_ids = [] -> evs = [] /\ le = false /\ ps' = ps).
+  Proof.
+    unfold request_backfill. destruct from_ids as [|first r].
+    - intros [= <- <- <-]. split; [constructor|auto].
+    - destruct (servers_at ps first) as [ps1 servers]. intros H. split; [|discriminate].
+      eapply bf_loop_unique; eauto. split; [intros e []|constructor].
+  Qed.
+End BackfillProofs.
